@@ -54,6 +54,38 @@ def degreesAreMultiples (s : Sym) : Bool :=
     | some r => r > 0 && s.m i d % r == 0 && s.m i d == r * s.v i d
     | none => false
 
+/-- the same orbit lengths computed for all chambers at once: every cycle of s_{i+1} s_i is walked
+    once from its least chamber and its length written to all its members (linear in the size;
+    used for symbols with tens of thousands of chambers, where asking `orbitLen` per chamber
+    is quadratic on long orbits; the driver evaluates both on small symbols and reports any
+    difference) -/
+def cycleFrom (s : Sym) (i d : Nat) : Nat → Nat → List Nat → List Nat
+  | 0, _, acc => acc
+  | fuel + 1, e, acc =>
+    let e' := s.op (i + 1) (s.op i e)
+    if e' == d then e' :: acc else cycleFrom s i d fuel e' (e' :: acc)
+
+def orbitLenTable (s : Sym) (i : Nat) : Array Nat :=
+  s.chambers.foldl (fun tab d =>
+    if tab.getD d 0 != 0 then tab
+    else
+      let cyc := cycleFrom s i d (s.size + 1) d []
+      let k := cyc.length
+      cyc.foldl (fun t x => t.setIfInBounds x k) tab)
+    (Array.replicate (s.size + 1) 0)
+
+def degreesAreMultiplesFast (s : Sym) : Bool :=
+  (List.range s.dim).all fun i =>
+    let tab := s.orbitLenTable i
+    s.chambers.all fun d =>
+      let r := tab.getD d 0
+      r > 0 && s.m i d % r == 0 && s.m i d == r * s.v i d
+
+def oraclesAgree (s : Sym) : Bool :=
+  (List.range s.dim).all fun i =>
+    let tab := s.orbitLenTable i
+    s.chambers.all fun d => s.orbitLen i d == some (tab.getD d 0)
+
 /-- degrees are constant on (i,i+1)-orbits (they belong to the orbit, not the chamber) -/
 def degreesOnOrbits (s : Sym) : Bool :=
   (List.range s.dim).all fun i => s.chambers.all fun d =>
@@ -78,6 +110,9 @@ def Res.notPanic : Res → Bool
   | .panic => false
   | _ => true
 
+/-- symbols up to this size are judged with the per-chamber oracle (and the two oracles compared) -/
+def naiveLimit : Nat := 1500
+
 /-- clauses about the result of parsing an arbitrary string -/
 def parsedClauses (r : Res) : List (String × Bool) :=
   match r with
@@ -86,7 +121,9 @@ def parsedClauses (r : Res) : List (String × Bool) :=
   | .ok s =>
     [ ("parsed-size-and-dim-at-least-1", s.size ≥ 1 && s.dim ≥ 1),
       ("parsed-ops-are-involutions-on-1..size", s.involutions),
-      ("parsed-degrees-are-multiples-of-orbit-lengths", s.degreesAreMultiples),
+      ("parsed-degrees-are-multiples-of-orbit-lengths",
+        if s.size ≤ naiveLimit then s.degreesAreMultiples else s.degreesAreMultiplesFast),
+      ("spec-orbit-length-oracles-agree", s.size > naiveLimit || s.oraclesAgree),
       ("parsed-degrees-constant-on-orbits", s.degreesOnOrbits) ]
 
 /-- "printing a parsed symbol gives text that parses to that same symbol again":
